@@ -1,6 +1,6 @@
 INIT Init
 NEXT Next
-CONSTANT Window = 1100000
+CONSTANT Window = 3000100
 INVARIANT ClosedFormsAgree
 INVARIANT Predict
 CHECK_DEADLOCK FALSE
